@@ -21,6 +21,9 @@ func init() {
 			c15ExactSpelling(p, r, sm)
 			r.Explain("R10 positions are 1-based: Line = line+1, Column = (cursor - line head) + 1, and the line head becomes cursor+1 when a newline is passed.")
 			c15PositionArithmetic(p, r, sm)
+			r.Explain("R11 no successful path leaves the token code at its initial zero. R12 the range predicates of the scanner, evaluated for every ASCII character, are exactly the decimal / hex / binary digits, blanks or line ends.")
+			c15TokenAssigned(p, r, sm)
+			c15CharClasses(p, r)
 		}
 	})
 }
@@ -1046,4 +1049,202 @@ func c15PositionArithmetic(p *Program, r *Report, sm *scanModel) {
 		}
 	}
 	r.Floor("C15.R10", n, 3)
+}
+
+// c15TokenAssigned (R11): every successful path of the scanning function gives the token a code: the code result never reaches
+// the common exit still holding its initial zero (which the parser reads as end of input: the rest of the program vanishes).
+func c15TokenAssigned(p *Program, r *Report, sm *scanModel) {
+	var scan *ssa.Function
+	for _, fn := range sm.methods {
+		if fn.Signature.Results().Len() == 4 {
+			scan = fn
+		}
+	}
+	if scan == nil {
+		return
+	}
+	// the phi of the int result with the most edges
+	var tokPhi *ssa.Phi
+	for _, b := range scan.Blocks {
+		for _, in := range b.Instrs {
+			ph, ok := in.(*ssa.Phi)
+			if !ok {
+				continue
+			}
+			if bt, ok := ph.Type().Underlying().(*types.Basic); !ok || bt.Kind() != types.Int {
+				continue
+			}
+			if tokPhi == nil || len(ph.Edges) > len(tokPhi.Edges) {
+				tokPhi = ph
+			}
+		}
+	}
+	if tokPhi == nil || len(tokPhi.Edges) < 10 {
+		r.Undecided("C15.R11", "Scan|token code", p.Pos(scan.Pos()), "the merge of the token codes was not found")
+		return
+	}
+	n := 0
+	for i, e := range tokPhi.Edges {
+		n++
+		c, isConst := e.(*ssa.Const)
+		zero := isConst && c.Value != nil && c.Int64() == 0
+		pr := tokPhi.Block().Preds[i]
+		r.Check(!zero, "C15.R11", fmt.Sprintf("Scan|token code on edge %d", i), p.Pos(instrPos(pr.Instrs[len(pr.Instrs)-1])), "a token code is assigned", "a path reaches the end of the scanning function with the token code still zero: the parser takes it for the end of input and silently drops the rest of the program")
+	}
+	r.Floor("C15.R11", n, 20)
+}
+
+// c15CharClasses (R12): the character-class predicates of the scanner, evaluated for every ASCII character, are exactly one of the
+// classes the language uses (decimal digits, hex digits, binary digits, blanks, line ends); a predicate that is one or two
+// characters away from a class is an off-by-one in a range test.
+func c15CharClasses(p *Program, r *Report) {
+	sp := p.SSAPkg("parser")
+	classes := map[string]func(ch int64) bool{
+		"decimal digits": func(ch int64) bool { return ch >= '0' && ch <= '9' },
+		"hex digits": func(ch int64) bool {
+			return (ch >= '0' && ch <= '9') || (ch >= 'a' && ch <= 'f') || (ch >= 'A' && ch <= 'F')
+		},
+		"binary digits": func(ch int64) bool { return ch == '0' || ch == '1' },
+		"blanks":        func(ch int64) bool { return ch == ' ' || ch == '\t' || ch == '\r' },
+		"line ends":     func(ch int64) bool { return ch == '\n' || ch == -1 },
+	}
+	n := 0
+	for _, fn := range SrcFuncs(sp) {
+		sg := fn.Signature
+		if sg.Recv() != nil || sg.Params().Len() != 1 || sg.Results().Len() != 1 || len(fn.Blocks) == 0 {
+			continue
+		}
+		if bt, ok := sg.Params().At(0).Type().Underlying().(*types.Basic); !ok || bt.Kind() != types.Int32 {
+			continue
+		}
+		if bt, ok := sg.Results().At(0).Type().Underlying().(*types.Basic); !ok || bt.Kind() != types.Bool {
+			continue
+		}
+		accept := map[int64]bool{}
+		pure := true
+		for ch := int64(-1); ch < 128 && pure; ch++ {
+			v, ok := evalPurePredicate(fn, ch)
+			if !ok {
+				pure = false
+			}
+			if v {
+				accept[ch] = true
+			}
+		}
+		if !pure {
+			continue // calls other code (unicode tables): not a range predicate
+		}
+		n++
+		best, bestDist := "", 1<<30
+		for name, cl := range classes {
+			d := 0
+			for ch := int64(-1); ch < 128; ch++ {
+				if cl(ch) != accept[ch] {
+					d++
+				}
+			}
+			if d < bestDist {
+				best, bestDist = name, d
+			}
+		}
+		switch {
+		case bestDist == 0:
+			r.OK("C15.R12", fn.Name()+"|character class", p.Pos(fn.Pos()), "accepts exactly the "+best)
+		case bestDist <= 3:
+			r.Fail("C15.R12", fn.Name()+"|character class", p.Pos(fn.Pos()), fmt.Sprintf("the predicate differs from the %s in %d character(s): a range test is off by one", best, bestDist))
+		default:
+			r.OK("C15.R12", fn.Name()+"|character class", p.Pos(fn.Pos()), "a class of its own")
+		}
+	}
+	r.Floor("C15.R12", n, 4)
+}
+
+// evalPurePredicate interprets a call-free function of one rune parameter (comparisons with constants, short-circuit phis).
+func evalPurePredicate(fn *ssa.Function, ch int64) (bool, bool) {
+	val := map[ssa.Value]constant.Value{fn.Params[0]: constant.MakeInt64(ch)}
+	var prev *ssa.BasicBlock
+	b := fn.Blocks[0]
+	get := func(v ssa.Value) (constant.Value, bool) {
+		if c, ok := v.(*ssa.Const); ok {
+			if c.Value == nil {
+				return nil, false
+			}
+			return c.Value, true
+		}
+		x, ok := val[v]
+		return x, ok
+	}
+	for steps := 0; steps < 200; steps++ {
+		for _, in := range b.Instrs {
+			switch x := in.(type) {
+			case *ssa.Phi:
+				for i, pr := range b.Preds {
+					if pr == prev {
+						v, ok := get(x.Edges[i])
+						if !ok {
+							return false, false
+						}
+						val[x] = v
+					}
+				}
+			case *ssa.BinOp:
+				l, ok1 := get(x.X)
+				rr, ok2 := get(x.Y)
+				if !ok1 || !ok2 {
+					return false, false
+				}
+				switch x.Op {
+				case token.EQL, token.NEQ, token.LSS, token.LEQ, token.GTR, token.GEQ:
+					val[x] = constant.MakeBool(constant.Compare(l, x.Op, rr))
+				default:
+					return false, false
+				}
+			case *ssa.UnOp:
+				if x.Op != token.NOT {
+					return false, false
+				}
+				v, ok := get(x.X)
+				if !ok {
+					return false, false
+				}
+				val[x] = constant.MakeBool(!constant.BoolVal(v))
+			case *ssa.Convert, *ssa.ChangeType:
+				var src ssa.Value
+				if cv, ok := x.(*ssa.Convert); ok {
+					src = cv.X
+				} else {
+					src = x.(*ssa.ChangeType).X
+				}
+				v, ok := get(src)
+				if !ok {
+					return false, false
+				}
+				val[x.(ssa.Value)] = v
+			case *ssa.If:
+				v, ok := get(x.Cond)
+				if !ok {
+					return false, false
+				}
+				prev = b
+				if constant.BoolVal(v) {
+					b = b.Succs[0]
+				} else {
+					b = b.Succs[1]
+				}
+			case *ssa.Jump:
+				prev = b
+				b = b.Succs[0]
+			case *ssa.Return:
+				v, ok := get(x.Results[0])
+				if !ok {
+					return false, false
+				}
+				return constant.BoolVal(v), true
+			case *ssa.DebugRef:
+			default:
+				return false, false
+			}
+		}
+	}
+	return false, false
 }
